@@ -37,6 +37,10 @@ CHECKS = {
    tech="bounded exhaustive enumeration of values in four syntactic positions, printer -> reader round trip through both syntaxes",
    text="Every atom of length 0..2 (quick) / 0..3 (thorough) alone, as list head, as non-head element and as improper tail, every small tree over a 50-atom alphabet of printer/reader corner cases, and long-atom families, are disassembled under each operator-set version and re-assembled, and (fixed integer mode) printed by the modern printer and re-read by both the modern reader and the classic assembler; each result must be byte-identical. Clause (c), compiler outputs, is checked by the program-level engine when present.",
    note="Trusted: nothing beyond byte equality of harness values; legacy integer mode excluded for the modern printer as the property states."),
+ "C10": dict(engine="scopemc", cat="exploration", ref="DESIGN.md 4/C10",
+   tech="exhaustive single-defect injection into generated well-scoped programs, compiled in isolated workers under a watchdog",
+   text="For every well-scoped program of the binder-chain and call-graph spaces, every single defect of four kinds is injected exhaustively (an unbound name at each variable-use position, 4 strict sigils; a duplicate definition of each function in 4 kind combinations; every back edge of inline-only call chains over <= 3 (4) inlines; every cyclic dependency digraph and repeated name of an assign with <= 2 (3) bindings in 3 assign kinds; 6 sigils, both entry option sets). Each defective program must be rejected, in bounded time, with an error naming the identifier or form, and its repaired twin must compile; a hang or worker death (unbounded inline expansion) is a violation.",
+   note="Defect positions are enumerated over the harness AST, so coverage is per construct of the generator. strict-cl21 is checked in its working configuration (F14). Known findings F20 F24 F29 F30."),
  "C12": dict(engine="dbgmc", cat="model_checking", ref="DESIGN.md 4/C12",
    tech="explicit-state exploration of the real debugger step function with a per-state denotation invariant against the consensus evaluator",
    text="The subject is the transition system CldbRun::step/run_step itself. Every (program, environment) of two finite families (all CLVM trees with <= 4 (thorough 5) leaves over a 16-atom alphabet x 3 environments; well-formed nested expressions of depth <= 2 over f r l c + = i a x 2 environments) is stepped from the initial state to termination; in every visited state the continuation stack is reified and evaluated with clvmr and must denote the program's consensus result; every emitted row with operator, arguments and value is re-evaluated with clvmr; row numbering, termination (Final / Throw / Failure) and hex-vs-source equality are checked. All traces are traces of the implementation (no separate model).",
